@@ -148,9 +148,15 @@ def run_app(sc, choices=None, world_hook=None):
     # connection outcome per attempt: consult conns[i]['outcome'] at dial time
     attempt = [0]
 
+    max_attempts = int(sc.get("max_attempts", 0))
+
     def listener_for_attempt():
         i = min(attempt[0], len(conns) - 1)
         attempt[0] += 1
+        if max_attempts and attempt[0] > max_attempts:
+            # a run that keeps dialling far beyond its scripted outcomes is judged as it stands: no need to simulate
+            # thousands of further attempts up to the virtual-time cap
+            w.k._abort("attempt_cap")
         return outcomes[i]
 
     lst = {"outcome": "accept", "peer": fac, "cfg": {"link": dict(sc.get("link") or {})}}
